@@ -79,6 +79,9 @@ Inductive supported : obs -> Prop :=
 | S_eqr l : lit_ok l -> supported (OEqR l)
 | S_eql l : lit_ok l -> supported (OEqL l)
 | S_ctr c : supported (OCtr c)
+| S_eq2 o1 o2 : supported o1 -> supported o2 -> supported (OEq2 o1 o2)
+| S_concat2 o1 o2 : supported o1 -> supported o2 -> supported (OConcat2 o1 o2)
+| S_elemof o1 : supported o1 -> supported (OElemOf o1)
 | S_access k : supported (OAccess k)
 | S_get k : supported (OGet k)
 | S_fields : supported OFields
@@ -755,6 +758,15 @@ Section Rel.
     Qed.
   End Combinators.
 
+  Lemma elem_rel : forall m e1 e2, RelT e1 e2 -> forall xs1 xs2, Forall2 RelT xs1 xs2 ->
+    RelC (elem_go (eval m) e1 xs1) (elem_go (eval m) e2 xs2).
+  Proof.
+    intros m e1 e2 HE. induction 1 as [|x1 x2 l1 l2 H _ IH]; cbn; [constructor; constructor|].
+    unfold ev_bool. eapply relR_bind with (RA := eq).
+    - eapply relR_bind; [apply relT_eq; auto|]. intros. now apply as_bool_rel.
+    - intros b ? <-. destruct b; auto. constructor. constructor.
+  Qed.
+
   Lemma flatten_rel : forall m rows1 rows2, Forall2 RelT rows1 rows2 ->
     forall a1 pa1 a2 pa2, ArrR a1 pa1 a2 pa2 ->
     RelC (flatten_go (eval m) rows1 a1 pa1) (flatten_go (eval m) rows2 a2 pa2).
@@ -988,6 +1000,17 @@ Section Rel.
     - (* eqr *) pose proof (relT_eq (S m) _ _ _ _ HT (lit_rel l H)) as G. now rewrite !eval_TEq in G.
     - (* eql *) pose proof (relT_eq (S m) _ _ _ _ (lit_rel l H) HT) as G. now rewrite !eval_TEq in G.
     - (* ctr *) apply apply_ctr_rel. apply (HT m).
+    - (* eq2 *)
+      pose proof (relT_eq (S m) _ _ _ _ (IHsupported1 _ _ HT) (IHsupported2 _ _ HT)) as G.
+      now rewrite !eval_TEq in G.
+    - (* concat2 *)
+      eapply relR_bind; [apply (IHsupported1 _ _ HT m)|]. intros v1 v2 HV.
+      eapply relR_bind; [apply (as_arr_rel ETypeErr); [discriminate | exact HV]|]. intros [a1 q1] [a2 q2] HA.
+      eapply relR_bind; [apply (IHsupported2 _ _ HT m)|]. intros w1 w2 HW.
+      eapply relR_bind; [apply (as_arr_rel ETypeErr); [discriminate | exact HW]|]. intros [b1 r1] [b2 r2] HB.
+      constructor. now apply concat_rel.
+    - (* elemof *) arr_arg HT m EBlameNeg. apply elem_rel; [now apply IHsupported|].
+      eapply ArrR_elems; eauto; apply same_ctrs_refl.
     - (* access *) pose proof (access_cong k _ _ HT (S m)) as G. now rewrite !eval_TObs in G.
     - (* get *) rec_arg HT m EBlameNeg.
       unfold prim_record_access. pose proof (FldR_lookup _ _ k HF) as L.
